@@ -1747,7 +1747,10 @@ std::unique_ptr<core::Rule> NinjaBuildEngineDelegate::lookupRule(const core::Key
     }
   };
 
-  return std::unique_ptr<core::Rule>(new NinjaInputRule(node->getScreenPath(), context, node));
+  // The rule must carry the key it was looked up by: the build database finds
+  // the stored result of a rule by that name (the screen path of the node is
+  // not the canonical path the result was stored under).
+  return std::unique_ptr<core::Rule>(new NinjaInputRule(key, context, node));
 }
 
 void NinjaBuildEngineDelegate::cycleDetected(
